@@ -3,6 +3,7 @@ package memtable
 import (
 	"fmt"
 	"iter"
+	"slices"
 	"strings"
 	"sync"
 
@@ -72,7 +73,9 @@ func (l *List) Put(key []byte, value []byte, seqNum uint64) (full bool) {
 }
 
 func (l *List) Get(key []byte) (kv.Entry, error) {
-	for _, t := range l.tablesSnap() {
+	// Search the newest table first: the active table and later sealed tables
+	// shadow entries for the same key in earlier sealed tables.
+	for _, t := range slices.Backward(l.tablesSnap()) {
 		v, err := t.Get(key)
 		if err != nil {
 			if err == kv.ErrNotFound {
